@@ -406,6 +406,47 @@ func c13Run(srv *svc.Server, sc c13Scenario, r *core.Rand) (viol [][2]string, in
 		}
 		raw.Close()
 		time.Sleep(300 * time.Millisecond)
+	case "serial-reuse-with-a-command-outstanding":
+		// command A (no timeout) is written with platform serial s and never answered; the terminal then sends 65 535
+		// heartbeats, so that the next frame the server writes — command B — carries serial s again; B times out; the terminal
+		// leaves. A's caller must be released then like any other (what the server tells it is its business).
+		if !joined() {
+			t.Close()
+			return nil, true, false, nil
+		}
+		launchLim(1, -1, 45*time.Second)
+		rxa, oka, toa := t.Next(20 * time.Second)
+		if toa || !oka || rxa.F == nil || rxa.F.ID != 0x8103 {
+			t.Close()
+			return nil, true, false, nil
+		}
+		sA := rxa.F.Serial
+		var buf []byte
+		for k := 0; k < 65535; k++ {
+			buf = append(buf, t.Frame(0x0002, uint16(k), nil)...)
+			if len(buf) > 30000 || k == 65534 {
+				if t.Write(buf) != nil {
+					t.Close()
+					return nil, true, false, nil
+				}
+				buf = buf[:0]
+			}
+		}
+		for k := 0; k < 65535; k++ {
+			if rx, ok, to := t.Next(60 * time.Second); to || !ok || rx.F == nil {
+				t.Close()
+				return nil, true, false, nil
+			}
+		}
+		launchLim(1, timeout, timeout+slack)
+		rxb, okb, tob := t.Next(20 * time.Second)
+		if tob || !okb || rxb.F == nil || rxb.F.ID != 0x8103 || rxb.F.Serial != sA {
+			t.Close()
+			return nil, true, false, nil // the serial was not reused: the situation was not produced
+		}
+		time.Sleep(timeout + 300*time.Millisecond)
+		closeIt()
+		time.Sleep(300 * time.Millisecond)
 	case "no-timeout-silent-peer":
 		// commands without a timeout (negative duration: the caller waits for the response or for the connection to end) to a
 		// terminal that reads them and stays silent for 9 s — longer than any guard an implementation may add on the caller's
@@ -522,6 +563,7 @@ func c13Long(c *core.Collector, x *Ctx) {
 		{Point: "no-timeout-silent-peer", K: 4, TimeoutMs: 100, RST: false, Key: "1900779"},
 		{Point: "stalled-reader-then-close", K: 8, TimeoutMs: 100, RST: false, Key: "1900780"},
 		{Point: "stalled-reader-then-close", K: 5, TimeoutMs: 1000, RST: true, Key: "1900781"},
+		{Point: "serial-reuse-with-a-command-outstanding", K: 2, TimeoutMs: 200, RST: false, Key: "1900782"},
 	} {
 		longWG.Add(1)
 		go func(li int, sc c13Scenario) {
